@@ -45,6 +45,25 @@ type nfCallee struct {
 	pkg   *packages.Package
 	sites []*nfSite
 	uses  int
+	// a local closure (`f := func(…) {…}` called as f(…)): no *types.Func; decl is synthesised from the literal
+	closure bool
+	sig     *types.Signature
+	lit     *ast.FuncLit
+	defStmt ast.Stmt
+}
+
+func (c *nfCallee) key() string {
+	if c.closure {
+		return "closure " + c.decl.Name.Name
+	}
+	return funcKey(c.fn)
+}
+
+func (c *nfCallee) signature() *types.Signature {
+	if c.closure {
+		return c.sig
+	}
+	return c.fn.Type().(*types.Signature)
 }
 
 type nfSite struct {
@@ -331,6 +350,11 @@ func (nz *Normalizer) plan(P *Program) (map[string][]textEdit, int) {
 		order = append(order, c)
 	}
 	sort.Slice(order, func(i, j int) bool { return funcKey(order[i].fn) < funcKey(order[j].fn) })
+	if len(order) == 0 {
+		// nothing left to inline among the declared functions: calls of local closures bound once to a function literal
+		// (also those that an earlier pass produced when it inlined a helper that takes a callback)
+		order = nz.closureCallees(P)
+	}
 
 	edits := map[string][]textEdit{}
 	type span struct{ s, e int }
@@ -349,7 +373,7 @@ func (nz *Normalizer) plan(P *Program) (map[string][]textEdit, int) {
 		var es []textEdit
 		var imps []map[string]string
 		ok := true
-		desc := "inline " + funcKey(c.fn)
+		desc := "inline " + c.key()
 		if nz.dropped[desc] {
 			continue
 		}
@@ -359,7 +383,7 @@ func (nz *Normalizer) plan(P *Program) (map[string][]textEdit, int) {
 			if why != "" {
 				allSites = false
 				if os.Getenv("VERIF_NF_DEBUG") != "" {
-					fmt.Printf("  NF skip %s at %s: %s\n", funcKey(c.fn), fset.Position(s.call.Pos()), why)
+					fmt.Printf("  NF skip %s at %s: %s\n", c.key(), fset.Position(s.call.Pos()), why)
 				}
 				continue
 			}
@@ -391,6 +415,12 @@ func (nz *Normalizer) plan(P *Program) (map[string][]textEdit, int) {
 			ds = c.decl.Doc.Pos()
 		}
 		dstart, dend := fset.Position(ds).Offset, fset.Position(c.decl.End()).Offset
+		if c.closure {
+			allSites = false
+			at := fset.Position(c.defStmt.End()).Offset
+			es = append(es, textEdit{start: at, end: at, text: "\n_ = " + c.decl.Name.Name + "\n", site: desc, site2: cfile})
+			imps = append(imps, nil)
+		}
 		if allSites && overlaps(cfile, dstart, dend) {
 			continue
 		}
@@ -499,7 +529,7 @@ func (nz *Normalizer) bodyInlinable(c *nfCallee) bool {
 			}
 		case *ast.Ident:
 			if obj := c.pkg.TypesInfo.Uses[x]; obj != nil {
-				if obj == types.Object(c.fn) {
+				if c.fn != nil && obj == types.Object(c.fn) {
 					ok = false
 				}
 				if b, isB := obj.(*types.Builtin); isB && b.Name() == "recover" {
@@ -543,7 +573,7 @@ func (nz *Normalizer) siteEdit(fset *token.FileSet, s *nfSite) (textEdit, map[st
 	off := func(p token.Pos) int { return fset.Position(p).Offset }
 	text := func(b []byte, n ast.Node) string { return string(b[off(n.Pos()):off(n.End())]) }
 
-	sig := c.fn.Type().(*types.Signature)
+	sig := c.signature()
 	nres := sig.Results().Len()
 
 	// ---- generic callee: the type arguments of this call replace the type parameters in the copied text ----
@@ -1111,6 +1141,32 @@ func (nz *Normalizer) siteEdit(fset *token.FileSet, s *nfSite) (textEdit, map[st
 	if c.decl.Recv != nil {
 		visit(c.decl.Recv)
 	}
+	if c.closure && why == "" {
+		// the variables the literal captured must be the ones visible under the same names at the call site
+		ast.Inspect(c.lit, func(x ast.Node) bool {
+			idn, ok := x.(*ast.Ident)
+			if !ok || why != "" {
+				return true
+			}
+			obj := info.Uses[idn]
+			if obj == nil || obj.Pkg() == nil || obj.Parent() == nil || obj.Parent() == types.Universe || obj.Parent() == obj.Pkg().Scope() {
+				return true
+			}
+			if obj.Pos() >= c.lit.Pos() && obj.Pos() <= c.lit.End() {
+				return true // declared inside the literal
+			}
+			if _, isVar := obj.(*types.Var); isVar && obj.(*types.Var).IsField() {
+				return true
+			}
+			if _, found := scope.LookupParent(idn.Name, s.call.Pos()); found != obj {
+				why = "closure capture not visible at the call site: " + idn.Name
+			}
+			return true
+		})
+		if s.call.Pos() >= c.lit.Pos() && s.call.End() <= c.lit.End() {
+			why = "recursive closure"
+		}
+	}
 	if why != "" {
 		return textEdit{}, nil, why
 	}
@@ -1582,4 +1638,187 @@ func keepAliveRef(pn *types.PkgName) string {
 		return "var _ = " + pn.Name() + "." + f
 	}
 	return ""
+}
+
+// closureCallees finds local variables that are bound exactly once to a function literal (directly, through
+// a conversion, or through a chain of `a := b` definitions), are never reassigned and are used only in call
+// position (or in the inliner's own `_ = x` keep-alive lines), together with their call sites.
+func (nz *Normalizer) closureCallees(P *Program) []*nfCallee {
+	var out []*nfCallee
+	for _, pkg := range P.Pkgs {
+		if strings.Contains(pkg.PkgPath, "/config/gen/") {
+			continue
+		}
+		info := pkg.TypesInfo
+		for _, f := range pkg.Syntax {
+			if hasDirective(f) || ast.IsGenerated(f) {
+				continue
+			}
+			type cand struct {
+				lit  *ast.FuncLit
+				def  *ast.Ident
+				stmt ast.Stmt
+				bad  bool
+				c    *nfCallee
+			}
+			cands := map[types.Object]*cand{}
+			alias := map[types.Object]types.Object{}
+			strip := func(e ast.Expr) ast.Expr {
+				for {
+					switch x := e.(type) {
+					case *ast.ParenExpr:
+						e = x.X
+						continue
+					case *ast.CallExpr:
+						if len(x.Args) == 1 {
+							if tv, ok := info.Types[x.Fun]; ok && tv.IsType() {
+								e = x.Args[0]
+								continue
+							}
+						}
+					}
+					return e
+				}
+			}
+			ast.Inspect(f, func(n ast.Node) bool {
+				as, ok := n.(*ast.AssignStmt)
+				if !ok || as.Tok != token.DEFINE || len(as.Lhs) != len(as.Rhs) {
+					return true
+				}
+				for i := range as.Lhs {
+					id, isId := as.Lhs[i].(*ast.Ident)
+					if !isId || id.Name == "_" {
+						continue
+					}
+					obj := info.Defs[id]
+					if obj == nil {
+						continue
+					}
+					switch r := strip(as.Rhs[i]).(type) {
+					case *ast.FuncLit:
+						cands[obj] = &cand{lit: r, def: id, stmt: as}
+					case *ast.Ident:
+						if o2, isV := info.Uses[r].(*types.Var); isV {
+							alias[obj] = o2
+						}
+					}
+				}
+				return true
+			})
+			if len(cands) == 0 {
+				continue
+			}
+			resolve := func(o types.Object) *cand {
+				for i := 0; i < 6 && o != nil; i++ {
+					if c := cands[o]; c != nil {
+						return c
+					}
+					o = alias[o]
+				}
+				return nil
+			}
+			var stack []ast.Node
+			ast.Inspect(f, func(n ast.Node) bool {
+				if n == nil {
+					stack = stack[:len(stack)-1]
+					return true
+				}
+				defer func() { stack = append(stack, n) }()
+				// reassignment
+				if as, ok := n.(*ast.AssignStmt); ok && as.Tok != token.DEFINE {
+					for _, l := range as.Lhs {
+						if id, isId := l.(*ast.Ident); isId {
+							if cd := resolve(info.Uses[id]); cd != nil {
+								cd.bad = true
+							}
+						}
+					}
+				}
+				id, ok := n.(*ast.Ident)
+				if !ok {
+					return true
+				}
+				obj := info.Uses[id]
+				cd := resolve(obj)
+				if cd == nil {
+					return true
+				}
+				// climb over parentheses and conversions
+				k := len(stack) - 1
+				child := ast.Node(id)
+				for k >= 0 {
+					switch p := stack[k].(type) {
+					case *ast.ParenExpr:
+						child = p
+						k--
+						continue
+					case *ast.CallExpr:
+						if len(p.Args) == 1 && p.Args[0] == child {
+							if tv, isT := info.Types[p.Fun]; isT && tv.IsType() {
+								child = p
+								k--
+								continue
+							}
+						}
+					}
+					break
+				}
+				if k < 0 {
+					cd.bad = true
+					return true
+				}
+				switch p := stack[k].(type) {
+				case *ast.CallExpr:
+					if p.Fun == child {
+						if cd.c == nil {
+							sig, _ := info.TypeOf(cd.lit).(*types.Signature)
+							if sig == nil {
+								cd.bad = true
+								return true
+							}
+							cd.c = &nfCallee{decl: &ast.FuncDecl{Name: cd.def, Type: cd.lit.Type, Body: cd.lit.Body}, file: f, pkg: pkg,
+								closure: true, sig: sig, lit: cd.lit, defStmt: cd.stmt}
+						}
+						cd.c.sites = append(cd.c.sites, &nfSite{call: p, stack: append([]ast.Node(nil), stack[:k+1]...), file: f, pkg: pkg, callee: cd.c})
+						return true
+					}
+					cd.bad = true // passed on as an argument
+				case *ast.AssignStmt:
+					allBlank := true
+					for _, l := range p.Lhs {
+						if lid, isId := l.(*ast.Ident); !isId || lid.Name != "_" {
+							allBlank = false
+						}
+					}
+					if allBlank {
+						return true // keep-alive reference
+					}
+					if p.Tok == token.DEFINE {
+						for i, r := range p.Rhs {
+							if r == child && i < len(p.Lhs) {
+								if lid, isId := p.Lhs[i].(*ast.Ident); isId && alias[info.Defs[lid]] == obj {
+									return true // alias definition
+								}
+							}
+						}
+					}
+					cd.bad = true
+				default:
+					cd.bad = true
+				}
+				return true
+			})
+			for _, cd := range cands {
+				if cd.bad || cd.c == nil || len(cd.c.sites) == 0 || len(cd.c.sites) > nz.maxSite {
+					continue
+				}
+				if cd.c.sig.TypeParams() != nil || !nz.bodyInlinable(cd.c) {
+					continue
+				}
+				out = append(out, cd.c)
+			}
+		}
+	}
+	sort.Slice(out, func(i, j int) bool { return out[i].decl.Pos() < out[j].decl.Pos() })
+	return out
 }
